@@ -76,12 +76,12 @@ class Obj(object):
 
 class World(object):
     def __init__(self, schema, seed, p_null=0.12, p_null_in_nonnull=0.04, p_error=0.07, p_crash=0.0,
-                 served=None):
+                 served=None, p_type_error=None):
         self.s = schema
         self.seed = seed
         self.p_null, self.p_nn, self.p_error, self.p_crash = p_null, p_null_in_nonnull, p_error, p_crash
         # resolve_type failures come with resolver errors: worlds without the latter have none
-        self.p_type_error = 0.06 if p_error else 0.0
+        self.p_type_error = (0.1 if p_error else 0.0) if p_type_error is None else p_type_error
         self._served = {}
         r = random.Random("served:%s" % seed)
         # applications tend to serve all their types the same way (one ORM class, plain dicts):
